@@ -29,6 +29,21 @@ CHECKS = {
             rapid("random", "TestC01Random", {"checks": 30000, "shards": 4}, {"checks": 400000, "shards": 16, "timeout": 6000}),
         ],
     },
+    "C03": {
+        "technique": "rapid random generation of (diff, sub-sequence, target) triples, differential oracle = independent reference interpreter of strict hunks",
+        "level_text": "List-mode diffs of generated pairs, arbitrary sub-sequences of their hunks and targets perturbed around the positions the "
+                      "hunks address are applied by jd and by a reference interpreter written from the documented hunk semantics; jd must fail "
+                      "exactly when the reference fails and agree on the result otherwise. Exploration over sampled triples.",
+        "level_note": "Trusts ref/hunk.go (strict interpretation: leaf expectation, remove-must-match, before/after context with boundary markers). "
+                      "A recovered panic counts as a rejection here and is reported under C13.",
+        "rule": "(a, b) list-mode pairs; hunks = all / one / a drawn sub-sequence of a.Diff(b); target c = a, b, a with a prefix of hunks applied, "
+                "Edit(a), or a with the array addressed by a drawn hunk perturbed next to the hunk's index (element before / after / removed changed, "
+                "array shifted, truncated, extended). Non-trivial: the hunks carry a non-boundary context line and c != a; distinct by (a, b, keep, c).",
+        "assumptions": ["the reference interpreter is the specification of strict hunks (README feature 3, doc/v2.md)"],
+        "legs": [
+            rapid("random", "TestC03Random", {"checks": 30000, "shards": 4}, {"checks": 300000, "shards": 16, "timeout": 6000}),
+        ],
+    },
     "C06": {
         "technique": "exhaustive enumeration of small array pairs + rapid random generation, oracle = independent LCS optimum and reference hunk interpreter",
         "level_text": "Every ordered pair of arrays over a small alphabet up to a length bound is enumerated (complete for that universe) and "
